@@ -2,7 +2,7 @@
     mechanism types and options that the loader supports".
 
     Two tables are regenerated on every run into Gen/SchemaTables.v by
-    harness/tools/schema: what schema/config.schema.json admits for the pipeline
+    harness/tools/schema: what schema/config.schema.json allows for the pipeline
     mechanisms, and what the loader accepts (type registries and the config
     structs the constructors decode into, with ErrorUnused).  This file defines
     their vocabulary, the row-by-row agreement check, the acceptance prediction
@@ -96,8 +96,11 @@ Definition row_agrees (s l : table) (r : row) : bool :=
       end
   end.
 
-(** recorded disagreements (C20-F1); the generated file proves that this list is
-    exactly the set of disagreeing rows of the current tables *)
+(** recorded disagreements (C20-F1): the generated file proves that every other
+    row of the current tables agrees; SchemaPinned.v shows that each of these
+    rows disagrees in the tables as they were extracted when the finding was
+    recorded (whether they still do on the current tree is what the replay
+    stream reports on every run) *)
 Definition known_F1 : list row :=
   [ RType "error_handlers" "www-authenticate";      (* the schema's spelling *)
     RType "error_handlers" "www_authenticate";      (* the loader's spelling *)
@@ -118,7 +121,10 @@ Definition disagreements (s l : table) : list row :=
 
 (** the finite statement checked over the regenerated tables *)
 Definition tables_ok (s l : table) : bool :=
-  forallb (fun r => guard_F1 r || row_agrees s l r) (all_rows s l) &&
+  forallb (fun r => guard_F1 r || row_agrees s l r) (all_rows s l).
+
+(** every recorded row is a row of the tables on which they disagree (no stale guard) *)
+Definition recorded_all_disagree (s l : table) : bool :=
   forallb (fun r => existsb (row_eqb r) (disagreements s l)) known_F1.
 
 (* ------------------------------------------------------------------ acceptance prediction *)
